@@ -1183,3 +1183,9 @@ pub fn tail_set(b: &[u8; super::bounds::PATH_L], len: usize) {
 pub fn tail_get() -> ([u8; super::bounds::PATH_L], usize) {
     unsafe { TAIL }
 }
+
+pub fn last_named_mnt() -> (i32, u64, u32) {
+    unsafe { LAST_NAMED_MNT }
+}
+
+// ---------------------------------------------------------------------------
